@@ -19,7 +19,7 @@ def id_of_int(n):
 def gen_vars(rng, nvars=None, style=None):
     """returns list of (id bytes, type string)"""
     nvars = nvars or rng.choice([1, 2, 3, 5, 8])
-    style = style or rng.choice(["dense", "dense", "dense", "offset", "sparse", "long", "weird", "wrap"])
+    style = style or rng.choice(["dense", "dense", "dense", "offset", "sparse", "long", "weird", "wrap", "tails"])
     ids = []
     if style == "dense":
         ids = [id_of_int(i) for i in range(nvars)]
@@ -33,6 +33,15 @@ def gen_vars(rng, nvars=None, style=None):
         # a code of 10+ characters whose base-94 value is 2^64 + k: with wrapping arithmetic it would collide with code k
         ids = [id_of_int(i) for i in range(max(1, nvars - 1))]
         ids.append(id_of_int(2 ** 64 * rng.choice([1, 1, 2]) + rng.randint(0, max(1, nvars - 1))))
+    elif style == "tails":
+        # long codes (hashed mapping) that agree in their last / first 8..14 characters and differ only before / after them,
+        # like the hierarchical names some tools use as identifier codes (`top.a.data_out`, `top.b.data_out`)
+        common = "".join(rng.choice(IDCHARS) for _ in range(rng.choice([8, 9, 12, 14])))
+        ids = []
+        for k in range(nvars):
+            var = id_of_int(k) + rng.choice(["", ".", "x"])
+            ids.append(var + common if rng.random() < 0.6 else common + var)
+        ids = list(dict.fromkeys(ids))
     elif style == "long":
         ids = list(dict.fromkeys("".join(rng.choice(IDCHARS) for _ in range(rng.choice([4, 5, 6, 12]))) for _ in range(nvars)))
     else:
